@@ -158,7 +158,6 @@ func c03MultipartNext(g *prog.Gen, idx int, hist []*prog.Step) *prog.Op {
 	}
 }
 
-
 // c03BatchProgram: DeleteObjects under key-dependent policies: every key of the batch needs its own grant,
 // wherever it stands in the batch.
 func c03BatchProgram(g *prog.Gen, idx int) []*prog.Op {
